@@ -35,7 +35,7 @@ KNOWN_LINEAR = "C22:linear-form-mixedelement-returns-kxk-duplicated-rows"
 
 def universes(tier):
     q = tier == "quick"
-    f, W2, W3, G = ("f", ()), ("W", (2,)), ("W", (3,)), ("G", (2, 2))
+    f, W2, X3, G = ("f", ()), ("W", (2,)), ("X", (3,)), ("G", (2, 2))
     EB = ("extract_blocks",)
     noacts = ("two", "w_u", "w_v", "w_u0", "w_u1", "w_u2", "w_v0", "w_v1", "w_v2")
     T = (2, 2)  # with kind "sym": symmetric tensor sub-element, physical value size 4, reference value size 3
@@ -53,31 +53,31 @@ def universes(tier):
         Uni("ms2", "space", [(), (2,)], [(), (2,)], [f, W2], {"add", "mul", "inner", "index"}, 2, EB, exclude=noacts),
         Uni("ms-rect", "space", [(), (2,)], [(2,), (), ()], [f], {"add", "mul", "index"}, 2, EB, keypairs=[(1, 2)], exclude=noacts),
     ]
-    # sub-elements whose reference value size differs from their physical value size, not in the last position
-    # (the offsets of the later sub-functions in the flattened argument count physical components):
-    # symmetric tensor first, same space on both sides (exhaustive)
-    out.append(Uni("me-sym", "element", [T, ()], [T, ()], [f, G], {"add", "mul", "inner"}, 2, EB, vkinds=["sym", "P"], ukinds=["sym", "P"],
-                   exclude=noacts + symrows + ("v", "u", "v[0]", "v[2]", "v[3]", "u[0]", "u[1]", "u[3]")))
+    # Sub-elements whose reference value size differs from their physical value size, NOT in the last position (the
+    # offsets of the later sub-functions in the flattened argument count physical components): symmetric 2x2 tensor
+    # (4 / 3) and, on a triangle mesh immersed in 3D, covariant Piola mapped vector (3 / 2).
     if q:
         out += [
-            # symmetric tensor in the middle / first, different spaces on the two sides (3 x 2), sampled
-            Uni("sample-me-sym", "element", [(), T, (2,)], [T, ()], [f, W2, G], deep_ops, 0, EB, keypairs=[(1, 2)], vkinds=["P", "sym", "P"], ukinds=["sym", "P"], exclude=noacts, simulate=300, depth=4),
-            # covariant Piola mapped vector sub-element (reference (2,), physical (3,)) first, triangle mesh immersed in 3D
-            Uni("sample-me-curl", "element", [(3,), (), (3,)], [(3,), ()], [f, W3], deep_ops, 0, EB, keypairs=[(1, 2)], vkinds=["curl", "P", "P"], ukinds=["curl", "P"], gdim=3, exclude=noacts, simulate=200, depth=4),
+            # sampled: symmetric tensor in the middle of the test space, Piola vector first in the trial space (3 x 2 blocks)
+            Uni("sample-me-refsize", "element", [(), T, (2,)], [(3,), ()], [f, W2, X3, G], deep_ops, 0, EB, keypairs=[(1, 2)], vkinds=["P", "sym", "P"], ukinds=["curl", "P"], gdim=3,
+                exclude=noacts, simulate=200, depth=4, nenv=1),
         ]
     else:
         out += [
-            # symmetric tensor in the middle of 3; linear and bilinear forms with an ordinary trial space
-            Uni("me-sym3", "element", [(), T, ()], [(), T, ()], [f, G], {"add", "mul", "inner"}, 2, EB, vkinds=["P", "sym", "P"], ukinds=["P", "sym", "P"],
+            # symmetric tensor first, same space on both sides; in the middle of 3; with an ordinary trial space
+            Uni("me-sym", "element", [T, ()], [T, ()], [f, G], {"add", "mul", "inner"}, 2, EB, vkinds=["sym", "P"], ukinds=["sym", "P"],
+                exclude=noacts + symrows + ("v", "u", "v[0]", "v[2]", "v[3]", "u[0]", "u[1]", "u[3]")),
+            Uni("me-sym3", "element", [(), T, ()], [(), T, ()], [f, G], {"add", "mul", "inner"}, 2, EB, vkinds=["P", "sym", "P"], ukinds=["P", "sym", "P"], nenv=1,
                 exclude=noacts + ("v_1r0", "v_1r1", "u_1r0", "u_1r1", "v", "u", "v[1]", "v[3]", "v[4]", "u[1]", "u[2]", "u[4]")),
             Uni("me-sym-plain", "element", [T, ()], [()], [f, G], {"add", "mul", "inner"}, 2, EB, vkinds=["sym", "P"], uplain=True,
                 exclude=noacts + symrows + ("v", "v[0]", "v[3]")),
-            # Piola mapped vector sub-element first / in the middle, immersed mesh
-            Uni("me-curl", "element", [(3,), ()], [(3,), ()], [f, W3], {"add", "mul", "inner"}, 2, EB, vkinds=["curl", "P"], ukinds=["curl", "P"], gdim=3,
+            # Piola mapped vector sub-element first, immersed mesh
+            Uni("me-curl", "element", [(3,), ()], [(3,), ()], [f, X3], {"add", "mul", "inner"}, 2, EB, vkinds=["curl", "P"], ukinds=["curl", "P"], gdim=3,
                 exclude=noacts + ("v", "u", "v[0]", "v[2]", "u[0]", "u[1]")),
-            Uni("deep-me-sym", "element", [T, (2,), ()], [T, (2,), ()], [f, W2, G], deep_ops, 0, EB, keypairs=[(1, 2), (3, 4)], vkinds=["sym", "P", "P"], ukinds=["sym", "P", "P"], exclude=noacts, simulate=3000, depth=6),
-            Uni("deep-me-sym-rect", "element", [(), T, (2,)], [T, T, ()], [f, W2, G], deep_ops, 0, EB, keypairs=[(1, 2)], vkinds=["P", "sym", "P"], ukinds=["sym", "sym", "P"], exclude=noacts, simulate=2500, depth=5),
-            Uni("deep-me-curl", "element", [(3,), (), (3,)], [(), (3,), (3,)], [f, W3], deep_ops, 0, EB, keypairs=[(1, 2)], vkinds=["curl", "P", "P"], ukinds=["P", "curl", "curl"], gdim=3, exclude=noacts, simulate=2500, depth=5),
+            Uni("deep-me-sym", "element", [T, (2,), ()], [T, (2,), ()], [f, W2, G], deep_ops, 0, EB, keypairs=[(1, 2), (3, 4)], vkinds=["sym", "P", "P"], ukinds=["sym", "P", "P"], exclude=noacts, simulate=2000, depth=6),
+            Uni("deep-me-sym-rect", "element", [(), T, (2,)], [T, T, ()], [f, W2, G], deep_ops, 0, EB, keypairs=[(1, 2)], vkinds=["P", "sym", "P"], ukinds=["sym", "sym", "P"], exclude=noacts, simulate=1500, depth=5, nenv=1),
+            Uni("deep-me-curl", "element", [(3,), (), (3,)], [(), (3,), (3,)], [f, X3], deep_ops, 0, EB, keypairs=[(1, 2)], vkinds=["curl", "P", "P"], ukinds=["P", "curl", "curl"], gdim=3, exclude=noacts, simulate=1500, depth=5, nenv=1),
+            Uni("deep-me-refsize", "element", [(), T, (2,)], [(3,), ()], [f, W2, X3, G], deep_ops, 0, EB, keypairs=[(1, 2), (3, 4)], vkinds=["P", "sym", "P"], ukinds=["curl", "P"], gdim=3, exclude=noacts, simulate=2000, depth=6),
         ]
     if q:
         # 3 sub-spaces, two integrals, deeper terms: sampled programs, purely bilinear / linear by
@@ -184,6 +184,17 @@ def sym_pairs(uni):
     return out
 
 
+def after_refsize(uni, num, p):
+    """sub-element p (0-based) of side num of a MixedElement space comes after a sub-element whose
+    reference value size differs from its physical value size"""
+    sz = uni.vsubsz if num == 0 else uni.usubsz
+    return any(a != b for a, b in sz[:p])
+
+
+def refsize_universe(uni):
+    return any(after_refsize(uni, num, len(sz)) for num, sz in ((0, uni.vsubsz), (1, uni.usubsz)))
+
+
 def _plus(x, y, z):
     return None if x is None or y is None or z is None else x + y - z
 
@@ -259,6 +270,7 @@ def structure(R):
 def check_record(w, rec, corrupt=False):
     uni = w.uni
     from ufl import extract_blocks
+    from ufl.algorithms.formsplitter import extract_blocks as extract_blocks_alg  # also takes `arity`
 
     findings = []
     st = {}
@@ -346,6 +358,16 @@ def check_record(w, rec, corrupt=False):
             findings.append(Finding("conformance", f"{PID}:conformance:block", f"{label} of {text}: block ({i}, {jj}) differs from the model's at {d1}", {"label": label}))
 
     # ---- extract_blocks(form): the whole structure ------------------------------------------------
+    judged = {}  # replace_argument -> grid of the blocks of extract_blocks(F) that have been judged
+
+    def single(B, i, j, label, replaced):
+        """judge one separately requested block (a block equal to the judged one of the whole structure has its verdict)"""
+        g = judged.get(replaced)
+        if g is not None and not corrupt and _same(B, g[i][j]):
+            cnt("single_blocks_equal_to_judged_block")
+            return
+        compare_block(block_table(B, i, j, replaced, label), i, j, label, replaced)
+
     def judge_whole(R, label, replaced):
         sreal = structure(R)
         want = ("matrix", rows, cols) if cols > 0 else ("vector", rows)
@@ -366,10 +388,14 @@ def check_record(w, rec, corrupt=False):
         else:
             viol(f"{PID}:{lin}:{kind}:structure", f"{label} of {text} returned structure {sreal}, the form has {want}", label)
             return
+        judged.setdefault(replaced, grid)
         total = {}
         ok = True
         for i in range(rows):
             for j in range(max(cols, 1)):
+                if not replaced and not is_empty(grid[i][j]) and (after_refsize(uni, 0, i) or (arity == 2 and after_refsize(uni, 1, j))):
+                    # the kept components of this block lie behind a sub-element whose reference and physical value sizes differ
+                    cnt("kept_argument_blocks_behind_a_sub_element_with_other_reference_size")
                 full = block_table(grid[i][j], i, j, replaced, label)
                 if full is None:
                     ok = False
@@ -396,9 +422,11 @@ def check_record(w, rec, corrupt=False):
             viol(f"{PID}:{lin}:{kind}:refuses:{type(R).__name__}", f"{label} of {text} raised {type(R).__name__}: {R}", label)
             continue
         judge_whole(R, label, replaced)
+        if not replaced:
+            continue
         # the documented option `arity` (set to the arity of the form): the same answer, or one that is judged as well
-        label = f"extract_blocks(F, arity={arity}{opt(replaced)})"
-        status, R2 = call(lambda: extract_blocks(F, arity=arity, replace_argument=replaced))
+        label = f"formsplitter.extract_blocks(F, arity={arity})"
+        status, R2 = call(lambda: extract_blocks_alg(F, arity=arity))
         if status == "raise":
             viol(f"{PID}:{lin}:{kind}:refuses-explicit-arity:{type(R2).__name__}", f"{label} of {text} raised {type(R2).__name__}: {R2}", label)
         elif same_result(R2, R):
@@ -416,17 +444,17 @@ def check_record(w, rec, corrupt=False):
                     if status == "raise":
                         viol(f"{PID}:{lin}:{kind}:single-block-refuses:{type(B).__name__}", f"{label} of {text} raised {type(B).__name__}: {B}", label)
                         continue
-                    compare_block(block_table(B, i, j, replaced, label), i, j, label, replaced)
+                    single(B, i, j, label, replaced)
                 label = f"extract_blocks(F, {i}{opt(replaced)})"
                 status, B = call(lambda: extract_blocks(F, i, replace_argument=replaced))
                 if status == "raise":
                     viol(f"{PID}:{lin}:{kind}:row-request-refuses:{type(B).__name__}", f"{label} of {text} raised {type(B).__name__}: {B}", label)
                 elif isinstance(B, (tuple, list)) and len(B) == cols:
                     for j in range(cols):
-                        compare_block(block_table(B[j], i, j, replaced, label), i, j, label, replaced)
+                        single(B[j], i, j, label, replaced)
                 elif cols == 1 and not isinstance(B, (tuple, list)) and not is_empty(B):
                     # a row of one block, returned as the block itself
-                    compare_block(block_table(B, i, 0, replaced, label), i, 0, label, replaced)
+                    single(B, i, 0, label, replaced)
                 else:
                     rowtab = restrict(Freal, part_slots(w, 0, i), list(range(1, nc + 1)), nr, nc)
                     nonzero = keyed_diff(rowtab, {}, nenv, nr, nc) is not None
@@ -442,7 +470,7 @@ def check_record(w, rec, corrupt=False):
                 if status == "raise":
                     viol(f"{PID}:{lin}:{kind}:single-block-refuses:{type(B).__name__}", f"{label} of {text} raised {type(B).__name__}: {B}", label)
                     continue
-                compare_block(block_table(B, i, 0, replaced, label), i, 0, label, replaced)
+                single(B, i, 0, label, replaced)
     viol_labels = {f.extra.get("label") for f in findings if f.kind == "violation"}
     findings = [f for f in findings if not (f.kind == "conformance" and f.extra.get("label") in viol_labels)]
     return findings, st
@@ -465,16 +493,19 @@ def _same(a, b):
 def run(ctx, args):
     ctx.rule = (
         "TLC enumerates every purely bilinear / purely linear integrand of each bounded universe of spec/Parts.tla over the "
-        "sub-functions of MixedElement spaces (ufl.split) and MixedFunctionSpaces with 2-3 sub-spaces (scalar and vector), one or "
+        "sub-functions of MixedElement spaces (ufl.split) and MixedFunctionSpaces with 2-3 sub-spaces (scalar and vector; MixedElement "
+        "spaces also with symmetric 2x2 tensor sub-elements and, on a triangle mesh immersed in 3D, covariant Piola mapped vector "
+        "sub-elements -- reference value size 3 / 2, physical value size 4 / 3 -- in first and middle position), one or "
         "two integrals (thorough tier additionally programs of up to 6 constructor calls drawn with the run's seed and validated by "
         "TLC), with the predicted blocks; each form is rebuilt with real ufl objects and extract_blocks(form), (form, i, j), (form, i) "
-        "are called with both settings of replace_argument; every returned block is assembled at every unit-vector point on its own "
+        "are called with both settings of replace_argument, formsplitter.extract_blocks(form, arity=..) with the form's arity; every returned block is assembled at every unit-vector point on its own "
         "sub-space arguments in 2 coefficient environments; a case is one form; non-trivial = the form has a non-zero block; "
         "distinct = distinct (universe, program, integrals)"
     )
     ctx.assume("assembly at a point: Arguments are real valued terminals; the value vector of a mixed space is the concatenation of the sub-function values; per (integral type, subdomain id); vf/sem.py reads real expressions and is compared with TLC's table of every input form")
     ctx.assume("forms: purely bilinear (every monomial of degree (1,1)) or purely linear (degree (1,0)); cell and exterior facet integrals, no restrictions / derivatives")
-    ctx.assume("a block that is None or an empty form counts as zero; a returned block may only contain the Arguments of its own sub-spaces (MixedElement + replace_argument: Arguments on FunctionSpace(mesh, sub_element); otherwise the original arguments restricted to the rows / columns of the block)")
+    ctx.assume("sub-elements with a non-identity pull back: the value vector of the sub-function is its PHYSICAL value (ufl.split and the flattened mixed argument have one component per physical component); blocks on a symmetric tensor sub-function are compared at symmetric values only (E01 + E10 instead of E01 and E10); a separately requested block that equals (Form.equals) the judged block of extract_blocks(form) shares its verdict")
+    ctx.assume("a block that is None or an empty form counts as zero; a returned block may only contain the Arguments of its own sub-spaces (MixedElement + replace_argument: Arguments on FunctionSpace(mesh, sub_element); MixedFunctionSpace: the original arguments of the block's sub-spaces; MixedElement with replace_argument=False: the original flattened arguments, assembled at ALL their components, the block must vanish on the components of the other sub-functions)")
     ctx.assume("expected structure: extract_blocks(form) -> k x k' nested tuple for bilinear forms (k, k' sub-spaces of the test / trial space), k-tuple for linear forms; extract_blocks(form, i) of a bilinear form -> row i (docstring of ufl.algorithms.formsplitter.extract_blocks)")
     ctx.assume("mixed test space with an ordinary trial space counts as a form on a mixed space (k x 1 blocks); ordinary test space with a mixed trial space is not generated (extract_blocks documents that it returns the form itself)")
     if args.selftest:
@@ -482,13 +513,22 @@ def run(ctx, args):
     only = os.environ.get("VERIF_UNIVERSES")
     unis = [u for u in universes(ctx.tier) if not only or u.name in only.split(",")]
     if not only:
+        from concurrent.futures import ThreadPoolExecutor
+
         f = ("f", ())
-        base.as_coded_counterexample(ctx, Uni("me-ascoded", "element", [(), ()], None, [f], {"mul"}, 1, ("extract_blocks",), exclude=("two", "w_v")), "BlocksShape", pid=PID)
-        # the model of FormSplitter.argument (replace_argument=False) with the offset advanced by the REFERENCE value size:
-        # the block after a symmetric tensor sub-element takes a component of the tensor
-        base.as_coded_counterexample(ctx, Uni("me-refoffset", "element", [(2, 2), ()], None, [f], {"mul"}, 1, ("extract_blocks",), vkinds=["sym", "P"],
-                                              exclude=("two", "w_v", "v", "v_0", "v_0r0", "v_0r1", "v[0]", "v[1]", "v[2]")), "SplitterKeepsOwn", pid=PID, ascoded=False, offset_by="reference")
+        with ThreadPoolExecutor(2) as ex:
+            futs = [
+                ex.submit(base.as_coded_counterexample, ctx, Uni("me-ascoded", "element", [(), ()], None, [f], {"mul"}, 1, ("extract_blocks",), exclude=("two", "w_v")), "BlocksShape", pid=PID),
+                # the model of FormSplitter.argument (replace_argument=False) with the offset advanced by the REFERENCE value
+                # size: the block after a symmetric tensor sub-element takes a component of the tensor
+                ex.submit(base.as_coded_counterexample, ctx, Uni("me-refoffset", "element", [(2, 2), ()], None, [f], {"mul"}, 1, ("extract_blocks",), vkinds=["sym", "P"],
+                                                                 exclude=("two", "w_v", "v", "v_0", "v_0r0", "v_0r1", "v[0]", "v[1]", "v[2]")), "SplitterKeepsOwn", pid=PID, ascoded=False, offset_by="reference"),
+            ]
+            for fu in futs:
+                fu.result()
     base.run_universes(ctx, __name__, unis, pid=PID)
+    if any(refsize_universe(u) for u in unis) and not ctx.cov.get("kept_argument_blocks_behind_a_sub_element_with_other_reference_size"):
+        raise MachineryError("vacuous: no non-empty replace_argument=False block behind a sub-element whose reference and physical value sizes differ was judged")
 
 
 def selftest(ctx):
